@@ -9,20 +9,20 @@ CONFIG = {
         "pkg": "c08",
         "regress": "^TestRegress",
         "legs": [
-            {"run": "^TestPinProto$", "quick": (6000, 2), "thorough": (150000, 4)},
+            {"run": "^TestPinProto$", "quick": (20000, 2), "thorough": (150000, 4)},
             {"run": "^TestPinState$", "quick": (3000, 1), "thorough": (60000, 2)},
-            {"run": "^TestPinMsgpack$", "quick": (6000, 2), "thorough": (150000, 4)},
+            {"run": "^TestPinMsgpack$", "quick": (20000, 2), "thorough": (150000, 4)},
             {"run": "^TestLogOpMsgpack$", "quick": (4000, 1), "thorough": (100000, 2)},
-            {"run": "^TestPinJSON$", "quick": (6000, 2), "thorough": (150000, 4)},
-            {"run": "^TestOptsQuery$", "quick": (6000, 1), "thorough": (150000, 4)},
+            {"run": "^TestPinJSON$", "quick": (20000, 2), "thorough": (150000, 4)},
+            {"run": "^TestOptsQuery$", "quick": (20000, 1), "thorough": (150000, 4)},
             {"run": "^TestAddParamsQuery$", "quick": (4000, 1), "thorough": (100000, 2)},
             {"run": "^TestRecords$", "quick": (1500, 1), "thorough": (30000, 4)},
             {"run": "^TestEnums$", "quick": (5000, 1), "thorough": (50000, 1)},
             {"run": "^TestEqualsAgrees$", "quick": (8000, 1), "thorough": (200000, 4)},
             {"run": "^TestDecodeProto$", "quick": (10000, 1), "thorough": (300000, 4)},
-            {"run": "^TestDecodeMsgpack$", "quick": (6000, 2), "thorough": (200000, 8)},
-            {"run": "^TestDecodeJSON$", "quick": (6000, 2), "thorough": (200000, 8)},
-            {"run": "^TestDecodeQuery$", "quick": (6000, 1), "thorough": (200000, 4)},
+            {"run": "^TestDecodeMsgpack$", "quick": (20000, 2), "thorough": (200000, 8)},
+            {"run": "^TestDecodeJSON$", "quick": (20000, 2), "thorough": (200000, 8)},
+            {"run": "^TestDecodeQuery$", "quick": (20000, 1), "thorough": (200000, 4)},
             {"run": "^TestDecodeState$", "quick": (3000, 1), "thorough": (100000, 4)},
             {"run": "^TestDecodeStrings$", "quick": (5000, 1), "thorough": (100000, 2)},
         ],
